@@ -2,6 +2,8 @@ import E3fpVerif.Model.Fprinter
 import E3fpVerif.Lemmas.SortBy
 import E3fpVerif.Lemmas.Uniq
 import E3fpVerif.Lemmas.EnumOrder
+import E3fpVerif.Lemmas.Relabel
+import E3fpVerif.Lemmas.StereoSym
 namespace E3fpVerif.Props.C03
 open E3fpVerif
 
@@ -333,5 +335,288 @@ theorem runFpE_fingerprint (enum : Nat → Nat → List Nat → List Nat) (henum
 example : (∀ k a l, ((fun (_ _ : Nat) (l : List Nat) => l.reverse) k a l).Perm l)
     ∧ (fun (_ _ : Nat) (l : List Nat) => l.reverse) 1 0 [1, 2] ≠ [1, 2] :=
   ⟨fun _ _ l => List.reverse_perm l, by decide⟩
+
+/-! ## renumbering the atoms never reaches the fingerprint
+
+`π` is a bijection of atom indices (inverse `πi`), `m.relabel π` is RDKit's `RenumberAtoms` (atoms
+listed in ascending order of the new index, bond end points mapped), `g'` is the geometry carried
+along (`Geo.Relabels π g g'`: the shell-membership decisions agree, and hypothesis (S) `StereoSym` on
+the stereo codes; (S) is not needed when `o.stereo = false`).  The molecule is assumed to have
+pairwise distinct atom indices.  The proof is a simulation of the two runs
+(`Lemmas/Relabel.lean`: `genLevel0_relabel`, `genLevel_relabel`, `accept_relabel`, `step_relabel`,
+`iterate_relabel`); the two index tie-breaks of the model are covered by (S) for `lt3` and by fact
+(D) (`Rl.dedupSpec_permRel`) for `ltShell`. -/
+
+/-- the retained atoms of the renumbered molecule -/
+theorem retained_relabel (o : Opts) (m : MolG) (π : Nat → Nat) :
+    (retained o (m.relabel π)).Perm ((retained o m).map π) :=
+  E3fpVerif.retained_relabel o m π
+
+/-- the general statement, with hypothesis (S) required only when stereo is on: both runs fail with
+the same error, or both succeed, with the same number of levels, and at every level the same multiset
+of `(identifier, substructure mapped back through πi)` -/
+theorem runFp_relabel_gen (π πi : Nat → Nat) (hl : ∀ a, πi (π a) = a) (hr : ∀ a, π (πi a) = a) (o : Opts) (m : MolG)
+    (hm : (m.atoms.map (·.idx)).Nodup) (g g' : Geo)
+    (hw : ∀ k a b, g'.within k (π a) (π b) = g.within k a b) (hs : o.stereo = true → StereoSym π g g') :
+    (∀ e, runFp o m g = .error e → runFp o (m.relabel π) g' = .error e) ∧
+    (∀ s, runFp o m g = .ok s → ∃ s', runFp o (m.relabel π) g' = .ok s' ∧
+      s'.levelShells.length = s.levelShells.length ∧ s'.currentLevel = s.currentLevel ∧
+      ∀ k, ((s'.levelShells.getD k []).map (fun x => (x.ident, uniq (x.sub.map πi)))).Perm
+        ((s.levelShells.getD k []).map (fun x => (x.ident, x.sub)))) := by
+  obtain ⟨h1, h2⟩ := runFp_relabel_core π πi hl hr o m hm g g' hw hs
+  refine ⟨h1, ?_⟩
+  intro s hs'
+  obtain ⟨s', S, hrun, hrel⟩ := h2 s hs'
+  refine ⟨s', hrun, hrel.lsLen, ?_, fun k => levelShells_relabel hrel k⟩
+  unfold FState.currentLevel; rw [hrel.genLen]
+
+/-- the fingerprints, general form -/
+theorem fingerprint_relabel_gen (π πi : Nat → Nat) (hl : ∀ a, πi (π a) = a) (hr : ∀ a, π (πi a) = a) (o : Opts)
+    (m : MolG) (hm : (m.atoms.map (·.idx)).Nodup) (g g' : Geo)
+    (hw : ∀ k a b, g'.within k (π a) (π b) = g.within k a b) (hs : o.stereo = true → StereoSym π g g')
+    (req : Option Int) (bits : Option Nat) (mask : List Nat) :
+    (runFp o (m.relabel π) g' >>= fun s => fingerprintAt o s req bits (mask.map π))
+      = (runFp o m g >>= fun s => fingerprintAt o s req bits mask) := by
+  obtain ⟨h1, h2⟩ := runFp_relabel_core π πi hl hr o m hm g g' hw hs
+  cases hrun : runFp o m g with
+  | error e => rw [h1 e hrun]; rfl
+  | ok s =>
+    obtain ⟨s', S, hrun', hrel⟩ := h2 s hrun
+    rw [hrun']
+    exact fingerprintAt_relabel hl hrel req bits mask
+
+/-- **C03, the run**: renumbering the atoms by any permutation (bonds and geometry carried along)
+gives a run that stops at the same level and has, at every level, the same multiset of
+`(identifier, substructure mapped back through πi)` -/
+theorem runFp_relabel (π πi : Nat → Nat) (hl : ∀ a, πi (π a) = a) (hr : ∀ a, π (πi a) = a) (o : Opts) (m : MolG)
+    (hm : (m.atoms.map (·.idx)).Nodup) (g g' : Geo) (hg : Geo.Relabels π g g') :
+    (∀ e, runFp o m g = .error e → runFp o (m.relabel π) g' = .error e) ∧
+    (∀ s, runFp o m g = .ok s → ∃ s', runFp o (m.relabel π) g' = .ok s' ∧
+      s'.levelShells.length = s.levelShells.length ∧ s'.currentLevel = s.currentLevel ∧
+      ∀ k, ((s'.levelShells.getD k []).map (fun x => (x.ident, uniq (x.sub.map πi)))).Perm
+        ((s.levelShells.getD k []).map (fun x => (x.ident, x.sub)))) :=
+  runFp_relabel_gen π πi hl hr o m hm g g' hg.within (fun _ => hg.stereo)
+
+/-- **C03, the fingerprint**: … and the fingerprint read off it is the same, for every requested level,
+folding and (renumbered) atom mask -/
+theorem fingerprint_relabel (π πi : Nat → Nat) (hl : ∀ a, πi (π a) = a) (hr : ∀ a, π (πi a) = a) (o : Opts)
+    (m : MolG) (hm : (m.atoms.map (·.idx)).Nodup) (g g' : Geo) (hg : Geo.Relabels π g g')
+    (req : Option Int) (bits : Option Nat) (mask : List Nat) :
+    (runFp o (m.relabel π) g' >>= fun s => fingerprintAt o s req bits (mask.map π))
+      = (runFp o m g >>= fun s => fingerprintAt o s req bits mask) :=
+  fingerprint_relabel_gen π πi hl hr o m hm g g' hg.within (fun _ => hg.stereo) req bits mask
+
+/-- state form of the fingerprint statement -/
+theorem fingerprint_relabel_states (π πi : Nat → Nat) (hl : ∀ a, πi (π a) = a) (hr : ∀ a, π (πi a) = a) (o : Opts)
+    (m : MolG) (hm : (m.atoms.map (·.idx)).Nodup) (g g' : Geo) (hg : Geo.Relabels π g g')
+    (s s' : FState) (h : runFp o m g = .ok s) (h' : runFp o (m.relabel π) g' = .ok s')
+    (req : Option Int) (bits : Option Nat) (mask : List Nat) :
+    fingerprintAt o s' req bits (mask.map π) = fingerprintAt o s req bits mask := by
+  have := fingerprint_relabel π πi hl hr o m hm g g' hg req bits mask
+  rw [h, h'] at this
+  exact this
+
+/-- **stereo off, the run**: no hypothesis on the stereo codes is needed -/
+theorem runFp_relabel_stereo_off (π πi : Nat → Nat) (hl : ∀ a, πi (π a) = a) (hr : ∀ a, π (πi a) = a) (o : Opts)
+    (hst : o.stereo = false) (m : MolG) (hm : (m.atoms.map (·.idx)).Nodup) (g g' : Geo)
+    (hw : ∀ k a b, g'.within k (π a) (π b) = g.within k a b) :
+    (∀ e, runFp o m g = .error e → runFp o (m.relabel π) g' = .error e) ∧
+    (∀ s, runFp o m g = .ok s → ∃ s', runFp o (m.relabel π) g' = .ok s' ∧
+      s'.levelShells.length = s.levelShells.length ∧ s'.currentLevel = s.currentLevel ∧
+      ∀ k, ((s'.levelShells.getD k []).map (fun x => (x.ident, uniq (x.sub.map πi)))).Perm
+        ((s.levelShells.getD k []).map (fun x => (x.ident, x.sub)))) :=
+  runFp_relabel_gen π πi hl hr o m hm g g' hw (fun h => by rw [hst] at h; cases h)
+
+/-- **stereo off, the fingerprint** -/
+theorem fingerprint_relabel_stereo_off (π πi : Nat → Nat) (hl : ∀ a, πi (π a) = a) (hr : ∀ a, π (πi a) = a)
+    (o : Opts) (hst : o.stereo = false) (m : MolG) (hm : (m.atoms.map (·.idx)).Nodup) (g g' : Geo)
+    (hw : ∀ k a b, g'.within k (π a) (π b) = g.within k a b)
+    (req : Option Int) (bits : Option Nat) (mask : List Nat) :
+    (runFp o (m.relabel π) g' >>= fun s => fingerprintAt o s req bits (mask.map π))
+      = (runFp o m g >>= fun s => fingerprintAt o s req bits mask) :=
+  fingerprint_relabel_gen π πi hl hr o m hm g g' hw (fun h => by rw [hst] at h; cases h) req bits mask
+
+/-! ### non-vacuity: a 3-atom molecule, the transposition of atoms 0 and 2 -/
+
+/-- the transposition (0 2); it is its own inverse -/
+def swap02 (a : Nat) : Nat := if a = 0 then 2 else if a = 2 then 0 else a
+
+theorem swap02_invol (a : Nat) : swap02 (swap02 a) = a := by
+  unfold swap02; split <;> split <;> (try split) <;> omega
+
+/-- C–C–O, atoms 0 1 2, bonds 0–1 and 1–2 -/
+def mol3 : MolG :=
+  { atoms := [⟨0, 6, 1, [1, 6], [6, 1]⟩, ⟨1, 6, 2, [2, 6], [6, 2]⟩, ⟨2, 8, 1, [1, 8], [8, 1]⟩],
+    bonds := [(0, 1, 1), (1, 2, 1)] }
+
+/-- a geometry: atoms on a line one unit apart, shell radius `k`; stereo codes depending on the bond
+code and identifier only -/
+def geo3 : Geo :=
+  { within := fun k a b => decide (a ≤ b + k ∧ b ≤ a + k),
+    stereo := fun _ l => l.map (fun t => (t.1 : Int) + t.2.1) }
+
+/-- the same geometry seen through the renumbering -/
+def geo3' : Geo :=
+  { within := fun k a b => geo3.within k (swap02 a) (swap02 b),
+    stereo := fun _ l => l.map (fun t => (t.1 : Int) + t.2.1) }
+
+theorem stereoTriples_geo3 (st : Nat → List (Nat × Int × Nat) → List Int) (hst : ∀ c l, st c l = l.map (fun t => (t.1 : Int) + t.2.1))
+    (w : Nat → Nat → Nat → Bool) (c : Nat) (l : List (Nat × Int × Nat)) :
+    stereoTriples ⟨w, st⟩ c l = l.map (fun t => (t.1, t.2.1, (t.1 : Int) + t.2.1)) := by
+  unfold stereoTriples
+  simp only [hst]
+  induction l with
+  | nil => rfl
+  | cons t l ih => simp only [List.map_cons, List.zip_cons_cons, ih]
+
+theorem geo3_relabels : Geo.Relabels swap02 geo3 geo3' := by
+  refine ⟨?_, ?_⟩
+  · intro k a b
+    show geo3.within k (swap02 (swap02 a)) (swap02 (swap02 b)) = geo3.within k a b
+    rw [swap02_invol, swap02_invol]
+  · intro c l l' hp _ _
+    unfold geo3 geo3'
+    rw [stereoTriples_geo3 _ (fun _ _ => rfl), stereoTriples_geo3 _ (fun _ _ => rfl)]
+    refine (hp.map _).trans ?_
+    rw [List.map_map]
+    exact List.Perm.of_eq rfl
+
+/-- the renumbered molecule lists the atoms in another order (O first), with mapped bonds -/
+example : (mol3.relabel swap02).atoms.map (fun a => (a.idx, a.atomicNum)) = [(0, 8), (1, 6), (2, 6)]
+    ∧ (mol3.relabel swap02).bonds = [(2, 1, 1), (1, 0, 1)] := by decide
+
+/-- the hypotheses of the theorems are satisfiable, and they yield the equality of fingerprints -/
+example (o : Opts) (req : Option Int) (bits : Option Nat) (mask : List Nat) :
+    (runFp o (mol3.relabel swap02) geo3' >>= fun s => fingerprintAt o s req bits (mask.map swap02))
+      = (runFp o mol3 geo3 >>= fun s => fingerprintAt o s req bits mask) :=
+  fingerprint_relabel swap02 swap02 swap02_invol swap02_invol o mol3 (by decide) geo3 geo3' geo3_relabels req bits mask
+
+/-! ## hypothesis (S) discharged: geometries that come from coordinates, over ℝ
+
+`Geo.ofCoords mult X` is the geometry of a conformer with coordinates `X`; the renumbered conformer has
+coordinates `X'` with `X' (π a) = X a`.  `Lemmas/StereoSym.lean` proves (S) for such a pair from the
+definition of `stereoIndicators` (`Stereo.triples_perm`): the codes are one function of the neighbour
+(given the multiset of neighbours) unless the centre has exactly two neighbours and they have the
+same `(bond code, identifier)`; in that case the y axis is the *first* neighbour, the two orders pick
+different axes, and the two code pairs agree when the two centred vectors are a `Stereo.GoodPair`.
+`Stereo.GenPos X S` asks that of the atoms `S` the fingerprinter works on: different atoms at least
+`√EPS = 10⁻⁶` apart, and no atom `q` closer than `√EPS` to — without lying on — the line through two
+other atoms `c, p`.  The second condition cannot be dropped (`Stereo.two_rule_tiny_projection`: `as_unit`
+leaves vectors shorter than `√EPS` unnormalised, so the "angle of a vector with itself" is `≈ π/2`
+instead of 0 for the short projection, and the two orders give codes `{1, 3}` and `{1, 2}`).
+
+`Geo.Relabels π (Geo.ofCoords mult X) (Geo.ofCoords mult X')` itself is false for every conformer with two
+atoms `c, q` at least `√EPS` apart whose order `π` reverses (`StereoSym` also quantifies over tuple lists
+that contain the centre itself, and a neighbour at distance 0 breaks the two-neighbour rule:
+`Stereo.two_rule_zero_vector`).  The fingerprinter never passes such a list
+(`Stereo.runFp_guard`), so the statement is about the geometry restricted to the lists it does pass
+(`Geo.guard`). -/
+
+open Stereo in
+/-- **(S) holds for coordinates**: the geometry of the renumbered conformer relabels the geometry of
+the conformer, on the stereo inputs the fingerprinter produces for the retained atoms -/
+theorem ofCoords_relabels (π πi : Nat → Nat) (hl : ∀ a, πi (π a) = a) (o : Opts) (m : MolG)
+    (mult : ℝ) (X X' : Nat → V3 ℝ) (hX : ∀ a, X' (π a) = X a) (hgp : GenPos X (retained o m)) :
+    Geo.Relabels π ((Geo.ofCoords mult X).guard (retained o m))
+      ((Geo.ofCoords mult X').guard (retained o (m.relabel π))) := by
+  have hinj : ∀ a b, π a = π b → a = b := by
+    intro a b h; have := congrArg πi h; rwa [hl, hl] at this
+  refine ofCoords_guard_relabels mult X X' π hinj hX _ _ ?_ hgp
+  intro a
+  rw [(retained_relabel o m π).mem_iff, List.mem_map]
+  constructor
+  · rintro ⟨b, hb, e⟩; rw [← hinj _ _ e]; exact hb
+  · intro h; exact ⟨a, h, rfl⟩
+
+open Stereo in
+/-- **C03 for conformers, the run**: renumbering the atoms of a molecule with coordinates (in general
+position if stereo is on) gives a run that stops at the same level with, at every level, the same
+multiset of `(identifier, substructure mapped back through πi)` -/
+theorem runFp_relabel_coords (π πi : Nat → Nat) (hl : ∀ a, πi (π a) = a) (hr : ∀ a, π (πi a) = a) (o : Opts) (m : MolG)
+    (hm : (m.atoms.map (·.idx)).Nodup) (mult : ℝ) (X X' : Nat → V3 ℝ) (hX : ∀ a, X' (π a) = X a)
+    (hgp : o.stereo = true → GenPos X (retained o m)) :
+    (∀ e, runFp o m (Geo.ofCoords mult X) = .error e → runFp o (m.relabel π) (Geo.ofCoords mult X') = .error e) ∧
+    (∀ s, runFp o m (Geo.ofCoords mult X) = .ok s → ∃ s', runFp o (m.relabel π) (Geo.ofCoords mult X') = .ok s' ∧
+      s'.levelShells.length = s.levelShells.length ∧ s'.currentLevel = s.currentLevel ∧
+      ∀ k, ((s'.levelShells.getD k []).map (fun x => (x.ident, uniq (x.sub.map πi)))).Perm
+        ((s.levelShells.getD k []).map (fun x => (x.ident, x.sub)))) := by
+  rw [← runFp_guard o m, ← runFp_guard o (m.relabel π)]
+  exact runFp_relabel_gen π πi hl hr o m hm _ _
+    (fun k a b => by
+      show Scalar.le (V3.dist (X' (π a)) (X' (π b))) _ = Scalar.le (V3.dist (X a) (X b)) _
+      rw [hX, hX])
+    (fun hst => (ofCoords_relabels π πi hl o m mult X X' hX (hgp hst)).stereo)
+
+open Stereo in
+/-- **C03 for conformers, the fingerprint**: … and the fingerprint is the same, for every requested
+level, folding and (renumbered) atom mask -/
+theorem fingerprint_relabel_coords (π πi : Nat → Nat) (hl : ∀ a, πi (π a) = a) (hr : ∀ a, π (πi a) = a) (o : Opts)
+    (m : MolG) (hm : (m.atoms.map (·.idx)).Nodup) (mult : ℝ) (X X' : Nat → V3 ℝ) (hX : ∀ a, X' (π a) = X a)
+    (hgp : o.stereo = true → GenPos X (retained o m))
+    (req : Option Int) (bits : Option Nat) (mask : List Nat) :
+    (runFp o (m.relabel π) (Geo.ofCoords mult X') >>= fun s => fingerprintAt o s req bits (mask.map π))
+      = (runFp o m (Geo.ofCoords mult X) >>= fun s => fingerprintAt o s req bits mask) := by
+  rw [← runFp_guard o m, ← runFp_guard o (m.relabel π)]
+  exact fingerprint_relabel_gen π πi hl hr o m hm _ _
+    (fun k a b => by
+      show Scalar.le (V3.dist (X' (π a)) (X' (π b))) _ = Scalar.le (V3.dist (X a) (X b)) _
+      rw [hX, hX])
+    (fun hst => (ofCoords_relabels π πi hl o m mult X X' hX (hgp hst)).stereo) req bits mask
+
+/-! ### non-vacuity: C–C–C with a right angle at the middle atom, ends swapped
+
+The two neighbours of atom 1 have the same bond code and the same identifier, so the two-neighbour
+rule applies, and the renumbering reverses their order. -/
+
+/-- C–C–C, atoms 0 1 2, bonds 0–1 and 1–2 -/
+def molCCC : MolG :=
+  { atoms := [⟨0, 6, 1, [1, 6], [6, 1]⟩, ⟨1, 6, 2, [2, 6], [6, 2]⟩, ⟨2, 6, 1, [1, 6], [6, 1]⟩],
+    bonds := [(0, 1, 1), (1, 2, 1)] }
+
+/-- atom 0 at (3,0,0), atom 1 at the origin, atom 2 at (0,4,0) -/
+noncomputable def xyzCCC (a : Nat) : V3 ℝ :=
+  if a = 0 then ⟨3, 0, 0⟩ else if a = 2 then ⟨0, 4, 0⟩ else ⟨0, 0, 0⟩
+
+theorem retained_molCCC (o : Opts) : retained o molCCC = [0, 1, 2] := by
+  unfold retained
+  cases o.excludeFloating <;> rfl
+
+open Stereo RealScalar in
+theorem genPos_CCC (o : Opts) : GenPos xyzCCC (retained o molCCC) := by
+  rw [retained_molCCC]
+  constructor
+  · intro c hc p hp hpc
+    simp only [List.mem_cons, List.not_mem_nil, or_false] at hc hp
+    rcases hc with rfl | rfl | rfl <;> rcases hp with rfl | rfl | rfl <;>
+      first
+      | exact absurd rfl hpc
+      | (apply proper_of_one_le; norm_num [xyzCCC, V3.sub, V3.dot])
+  · intro c hc p hp q hq hpc hqc hpq
+    simp only [List.mem_cons, List.not_mem_nil, or_false] at hc hp hq
+    rcases hc with rfl | rfl | rfl <;> rcases hp with rfl | rfl | rfl <;> rcases hq with rfl | rfl | rfl <;>
+      first
+      | exact absurd rfl hpc
+      | exact absurd rfl hqc
+      | exact absurd rfl hpq
+      | (apply notTiny_proj_of'
+         · apply proper_of_one_le; norm_num [xyzCCC, V3.sub, V3.dot]
+         · norm_num [xyzCCC, V3.sub, V3.dot])
+
+/-- the hypotheses of `fingerprint_relabel_coords` are satisfiable: the C–C–C conformer above and its
+renumbering by the transposition (0 2) have the same fingerprints, stereo on or off -/
+example (o : Opts) (mult : ℝ) (req : Option Int) (bits : Option Nat) (mask : List Nat) :
+    (runFp o (molCCC.relabel swap02) (Geo.ofCoords mult (fun a => xyzCCC (swap02 a)))
+        >>= fun s => fingerprintAt o s req bits (mask.map swap02))
+      = (runFp o molCCC (Geo.ofCoords mult xyzCCC) >>= fun s => fingerprintAt o s req bits mask) :=
+  fingerprint_relabel_coords swap02 swap02 swap02_invol swap02_invol o molCCC (by decide) mult xyzCCC _
+    (fun a => by simp only [swap02_invol]) (fun _ => genPos_CCC o) req bits mask
+
+open Stereo RealScalar in
+/-- … while the unrestricted statement fails on the same conformer: `Geo.Relabels` between the two
+coordinate geometries themselves does not hold (centre 0 listed among its own neighbours) -/
+example (mult : ℝ) :
+    ¬ Geo.Relabels swap02 (Geo.ofCoords mult xyzCCC) (Geo.ofCoords mult (fun a => xyzCCC (swap02 a))) :=
+  not_relabels_ofCoords mult xyzCCC _ swap02 (fun a => by simp only [swap02_invol]) 0 2 (by decide) (by decide)
+    (by apply proper_of_one_le; norm_num [xyzCCC, V3.sub, V3.dot])
 
 end E3fpVerif.Props.C03
